@@ -9,7 +9,7 @@ use crate::{run, Case, Prop, Tier, Viol};
 pub struct C07;
 
 #[derive(Clone, Debug)]
-enum B {
+pub enum B {
     P(String),
     Ul(Vec<Vec<B>>),
     Ol(Option<i64>, Vec<Vec<B>>),
@@ -38,7 +38,7 @@ fn inline(r: &mut R) -> String {
 fn gen_blocks(r: &mut R, d: u32, max: usize) -> Vec<B> {
     (0..1 + r.u(max)).map(|_| gen_block(r, d)).collect()
 }
-fn gen_block(r: &mut R, d: u32) -> B {
+pub fn gen_block(r: &mut R, d: u32) -> B {
     let k = if d == 0 { 0 } else { r.b(10) };
     match k {
         0..=2 => B::P(inline(r)),
@@ -54,7 +54,7 @@ fn gen_block(r: &mut R, d: u32) -> B {
         _ => B::Dl((0..1 + r.u(3)).map(|_| (inline(r), gen_blocks(r, d - 1, 2))).collect()),
     }
 }
-fn html(b: &B) -> String {
+pub fn html(b: &B) -> String {
     match b {
         B::P(s) => format!("<p>{s}</p>"),
         B::Ul(items) => format!("<ul>{}</ul>", items.iter().map(|i| format!("<li>{}</li>", htmls(i))).collect::<String>()),
@@ -72,8 +72,30 @@ fn lines(o: &Obs) -> Option<Vec<String>> {
     o.text_lines()
 }
 
+/// the prefix strings of a decorator
+#[derive(Clone, Debug)]
+pub struct Prefixes {
+    pub quote: String,
+    pub ul: String,
+    pub ol_tail: String,
+    pub h_unit: String,
+    pub h_tail: String,
+}
+impl Prefixes {
+    pub fn builtin() -> Prefixes {
+        Prefixes { quote: "> ".into(), ul: "* ".into(), ol_tail: ". ".into(), h_unit: "#".into(), h_tail: " ".into() }
+    }
+}
+fn dw(s: &str) -> usize {
+    s.chars().map(crate::refimpl::cw).sum()
+}
+
 /// check the compositional law for one block rendered alone at width `w`; returns the first problem
 fn check(b: &B, cfg: &Cfg, w: usize, depth: u32) -> Option<String> {
+    check_with(b, cfg, w, depth, &Prefixes::builtin())
+}
+
+pub fn check_with(b: &B, cfg: &Cfg, w: usize, depth: u32, px: &Prefixes) -> Option<String> {
     let src = html(b);
     let o = run(src.as_bytes(), cfg, w);
     let got = match lines(&o) {
@@ -86,26 +108,27 @@ fn check(b: &B, cfg: &Cfg, w: usize, depth: u32) -> Option<String> {
     match b {
         B::P(_) => None,
         B::Quote(c) => {
-            if w < 3 {
+            let p = dw(&px.quote);
+            if w <= p {
                 return None;
             }
-            let inner = inner_render(&htmls(c), w - 2)?;
-            let exp = prefixed("> ", "> ", &inner);
+            let inner = inner_render(&htmls(c), w - p)?;
+            let exp = prefixed(&px.quote, &px.quote, &inner);
             if trim(got.clone()) != trim(exp.clone()) {
-                return Some(format!("blockquote at width {w}: {:?} is not '> ' + content rendered at {}: {:?}", got, w - 2, exp));
+                return Some(format!("blockquote at width {w}: {:?} is not {:?} + content rendered at {}: {:?}", got, px.quote, w - p, exp));
             }
             if c.len() == 1 && depth > 0 {
-                return check(&c[0], cfg, w - 2, depth - 1);
+                return check_with(&c[0], cfg, w - p, depth - 1, px);
             }
             None
         }
         B::H(l, s) => {
-            let p = l + 1;
+            let pre = format!("{}{}", px.h_unit.repeat(*l), px.h_tail);
+            let p = dw(&pre);
             if w <= p {
                 return None;
             }
             let inner = inner_render(s, w - p)?;
-            let pre = format!("{} ", "#".repeat(*l));
             let exp = prefixed(&pre, &pre, &inner);
             if trim(got.clone()) != trim(exp.clone()) {
                 return Some(format!("h{l} at width {w}: {:?} is not '{pre}' + content rendered at {}: {:?}", got, w - p, exp));
@@ -113,33 +136,35 @@ fn check(b: &B, cfg: &Cfg, w: usize, depth: u32) -> Option<String> {
             None
         }
         B::Ul(items) => {
-            if w < 3 {
+            let p = dw(&px.ul);
+            if w <= p {
                 return None;
             }
             let mut exp = Vec::new();
             for it in items {
-                let inner = inner_render(&htmls(it), w - 2)?;
-                exp.extend(prefixed("* ", "  ", &inner));
+                let inner = inner_render(&htmls(it), w - p)?;
+                exp.extend(prefixed(&px.ul, &" ".repeat(p), &inner));
             }
             if trim(got.clone()) != trim(exp.clone()) {
-                return Some(format!("ul at width {w}: {:?} is not the items rendered at {} with '* ' / '  ': {:?}", got, w - 2, exp));
+                return Some(format!("ul at width {w}: {:?} is not the items rendered at {} with {:?} / {} spaces: {:?}", got, w - p, px.ul, p, exp));
             }
             if items.len() == 1 && items[0].len() == 1 && depth > 0 {
-                return check(&items[0][0], cfg, w - 2, depth - 1);
+                return check_with(&items[0][0], cfg, w - p, depth - 1, px);
             }
             None
         }
         B::Ol(st, items) => {
             let start = st.unwrap_or(1);
             let n = items.len() as i64;
-            let pw = format!("{}. ", start).len().max(format!("{}. ", start + n - 1).len());
+            let pw = dw(&format!("{}{}", start, px.ol_tail)).max(dw(&format!("{}{}", start + n - 1, px.ol_tail)));
             if w <= pw {
                 return None;
             }
             let mut exp = Vec::new();
             for (k, it) in items.iter().enumerate() {
                 let inner = inner_render(&htmls(it), w - pw)?;
-                let marker = format!("{:<pw$}", format!("{}. ", start + k as i64), pw = pw);
+                let m0 = format!("{}{}", start + k as i64, px.ol_tail);
+                let marker = format!("{}{}", m0, " ".repeat(pw.saturating_sub(dw(&m0))));
                 exp.extend(prefixed(&marker, &" ".repeat(pw), &inner));
             }
             if trim(got.clone()) != trim(exp.clone()) {
@@ -242,7 +267,7 @@ impl Prop for C07 {
     }
 }
 
-fn find_body(n: &crate::domwalk::N) -> Option<&crate::domwalk::N> {
+pub fn find_body(n: &crate::domwalk::N) -> Option<&crate::domwalk::N> {
     if n.is("body") {
         return Some(n);
     }
@@ -257,7 +282,7 @@ fn inner_html(n: &crate::domwalk::N) -> String {
     s
 }
 
-fn from_dom(n: &crate::domwalk::N) -> Option<B> {
+pub fn from_dom(n: &crate::domwalk::N) -> Option<B> {
     let kids_blocks = |n: &crate::domwalk::N| -> Vec<B> { n.kids().iter().filter_map(from_dom).collect() };
     match n.name() {
         "p" => Some(B::P(inner_html(n))),
